@@ -4,6 +4,7 @@
 (* drop, at any moment - in particular racing with sends).                   *)
 (*   MC_LogThread_2x3.cfg   2 senders x 3 messages over 2 addresses (safety) *)
 (*   MC_LogThread_3x2.cfg   3 senders x 2 messages over 2 addresses (safety) *)
+(*   MC_LogThread_cov.cfg   2 senders, 2 + 1 messages (action coverage)      *)
 (* Liveness is checked by MC_LogThreadLive (separate runs: with fairness in  *)
 (* the specification TLC keeps its liveness graph, several times slower).    *)
 (* Checked: the three clauses of C25 (Delivered, GeneralOrder, LastWins),    *)
@@ -30,26 +31,25 @@ Script3 == <<
   << M(3, "alog", 3, <<2>>),  M(4, "cwe", 4, <<2, 1>>) >>,
   << M(5, "alog", 5, <<2>>),  M(6, "log", 6, <<>>) >> >>
 
+\* small instance (2 senders, 2 + 1 messages) run with -coverage in the quick tier: every action
+\* of the machine must be taken (the 2 x 3 run is then done without the coverage overhead)
+ScriptS == <<
+  << M(1, "cwe", 1, <<1>>),    M(2, "log", 2, <<>>) >>,
+  << M(4, "alog", 4, <<1>>) >> >>
+
 AllMsgs == UNION {{Script[s][k] : k \in 1..Len(Script[s])} : s \in Senders}
 
 -----------------------------------------------------------------------------
 \* Refinement: every step of the concurrent machine is a step of LogThreadAbs or stutters, under
-\*    fold <- Fold(Prefix(chan)),  termd <- HasTerm(chan).
-\* TLC re-evaluates a substituted expression at every occurrence; so the two state functions are
-\* kept in auxiliary variables that are DEFINED to be the mapping in every state (not maintained
-\* incrementally - nothing about the abstraction is presupposed).
-VARIABLES gfold, gterm
-mcvars == <<vars, gfold, gterm>>
-MCInit == Init /\ gfold = Fold(Prefix(chan)) /\ gterm = HasTerm(chan)
-MCNext == Next /\ gfold' = Fold(Prefix(chan')) /\ gterm' = HasTerm(chan')
-MCSafetySpec == MCInit /\ [][MCNext]_mcvars
-A == INSTANCE LogThreadAbs WITH fold <- gfold, termd <- gterm
+\*    fold <- Fold(Prefix(chan)),  termd <- HasTerm(chan)
+A == INSTANCE LogThreadAbs WITH fold <- Fold(Prefix(chan)), termd <- HasTerm(chan)
 
 AbsStep ==
+  \/ UNCHANGED <<spc, cur, chan, opc, result>>        \* collector steps are invisible (cheap test first)
   \/ \E s \in Senders : A!SendStart(s, cur'[s]) \/ A!Enqueue(s) \/ A!SendEnd(s)
   \/ A!CollectStart \/ A!DropStart \/ A!SendTerminate \/ A!CollectEndExact \/ A!DropEnd
-  \/ UNCHANGED A!avars                               \* collector steps are invisible
-Refines == [][AbsStep]_mcvars
+  \/ UNCHANGED A!avars
+Refines == [][AbsStep]_vars
 AbsInit == A!InitWith(Senders)
 
 -----------------------------------------------------------------------------
@@ -64,9 +64,9 @@ Variants(r) ==
   \cup {[r EXCEPT !.cwes = Append(@, r.cwes[i])] : i \in 1..Len(r.cwes)}
   \cup {[r EXCEPT !.cwes[i] = Payload(m)] : i \in 1..Len(r.cwes), m \in {x \in AllMsgs : IsCwe(x)}}
   \cup {[r EXCEPT !.logs[i] = Payload(m)] : i \in 1..Len(r.logs), m \in {x \in AllMsgs : ~IsCwe(x)}}
-OracleAgreeAt == \A r \in Variants(result) : ResultMatches(gfold, r) <=> PropertyOK(Q, r)
+OracleAgreeAt == \A r \in Variants(result) : ResultMatches(Fold(Q), r) <=> PropertyOK(Q, r)
 \* Q and result do not change once collect() has returned: checked on the CollectEnd step
 \* (and, since CollectEnd can be delayed arbitrarily, every (Q, result) also occurs with all sends finished)
 AllSent == \A s \in Senders : nsent[s] = Len(Script[s]) /\ spc[s] = "idle"
-OracleAgree == [][CollectEnd /\ AllSent => OracleAgreeAt']_mcvars
+OracleAgree == [][CollectEnd /\ AllSent => OracleAgreeAt']_vars
 =============================================================================
